@@ -352,8 +352,7 @@ Lemma weight_le1 : forall i, fabs_le (weight i) 1.
 Proof.
   intros i. unfold weight, nthZ.
   assert (H : (fun q => let x := f_of_dec q in Z.abs (fm x) * P2 (fe x) <=? 1 * Q2 (fe x)) (nth i term_weights (0, 1)) = true).
-  { apply (@nth_in_or_default _ i term_weights (0, 1)) || idtac.
-    destruct (nth_in_or_default i term_weights (0, 1)) as [Hin | ->]; [|vm_compute; reflexivity].
+  { destruct (nth_in_or_default i term_weights (0, 1)) as [Hin | ->]; [|vm_compute; reflexivity].
     revert Hin. generalize (nth i term_weights (0, 1)). intros q Hin.
     assert (Hall : forallb (fun q => let x := f_of_dec q in Z.abs (fm x) * P2 (fe x) <=? 1 * Q2 (fe x)) term_weights = true)
       by (vm_compute; reflexivity).
